@@ -650,6 +650,13 @@ pub fn explore(f: &dyn Fn() -> Verdict, seed: u64, lim: &Limits) -> Report {
                                 });
                                 if all {
                                     rep.disagreements += 1;
+                                    if let Ok(dir) = std::env::var("SYMPC_DUMP") {
+                                        let _ = std::fs::write(format!("{}/disagree{}_x.smt2", dir, rep.disagreements), format!("(set-logic ALL)\n{}(check-sat)\n", q.text));
+                                        if let Some(qn) = ARENA.with(|a| emit_query_norm(&a.borrow(), &conds)) {
+                                            let _ = std::fs::write(format!("{}/disagree{}_n.smt2", dir, rep.disagreements), format!("(set-logic ALL)\n{}(check-sat)\n", qn.text));
+                                        }
+                                        let _ = std::fs::write(format!("{}/disagree{}_model.txt", dir, rep.disagreements), format!("tier {} model {:?}", tier, ni.iter().map(fr_dec).collect::<Vec<_>>()));
+                                    }
                                 }
                             }
                         }
